@@ -72,8 +72,9 @@ NavOK(cfg, s, o) ==
           /\ CeilingOK(cfg, s, c[1], <<c[2], c[4]>>)
           /\ (c[4] => <<c[3], TRUE>> = GetRet(cfg, s, c[2], cfg.zero))
 C02(pre, e) ==
-  (Completed(e) /\ e.cfg.sorted) =>
+  e.cfg.sorted =>
     LET cfg == e.cfg  o == e.post  s == EntRaw(o) IN
+    /\ Completed(e)                                                  \* the enumeration itself must complete
     /\ SortedOK(cfg, s)                                              \* Keys() strictly ascending
     /\ (cfg.aligned => o.vals = Vals(s))                             \* Values() in key order
     /\ (cfg.vsorted => Ascending(cfg.vcmp, o.vals))                  \* TreeBidiMap: values by the value comparator
@@ -88,8 +89,9 @@ C07(pre, e) ==
 
 \* ---- C09: linked hash map iterates in insertion order ------------------------------------------
 C09(pre, e) ==
-  (Completed(e) /\ e.cfg.linked) =>
+  e.cfg.linked =>
     LET cfg == e.cfg  o == e.post  s == EntRaw(pre)  t == EntRaw(o) IN
+    /\ Completed(e)
     /\ TransOK(cfg, s, e, t)                 \* a present key never moves, a new key goes last, Remove keeps the rest
     /\ o.iter = t /\ o.each = t              \* iterator and Each follow Keys()
     /\ o.vals = Vals(t)
@@ -97,8 +99,9 @@ C09(pre, e) ==
 
 \* ---- C10: bidirectional maps are one-to-one ----------------------------------------------------
 C10(pre, e) ==
-  (Completed(e) /\ e.cfg.bidi) =>
+  e.cfg.bidi =>
     LET cfg == e.cfg  o == e.post  s == Ent(cfg, pre)  t == Ent(cfg, o) IN
+    /\ Completed(e)
     /\ TransOK(cfg, s, e, t)
     /\ OneToOne(cfg, t) /\ OneKeyEach(cfg, t)
     /\ o.size = Len(o.keys) /\ o.size = Len(o.vals)
